@@ -92,6 +92,8 @@ def run_fit(cfg, tape, acc, record=None):
     epochs_seen = []
     seen = []
     F.wrap_batches(st, seen, lambda: len(epochs_seen))
+    chains = []
+    F.wrap_gibbs(st, chains)
     L = lib()
     cb = L.callbacks.LambdaCallback(on_epoch_start=lambda s, e: epochs_seen.append(e))
     dec = F.FitDecider(tape)
@@ -155,6 +157,15 @@ def run_fit(cfg, tape, acc, record=None):
             if not (len(negrows) == nbs or (not with_bases and nbs == pb and tuple(b[1].shape) == tuple(b[0].shape) and torch.equal(b[1], b[0]))):
                 out.append(("batching:negative-batch-size", dict(epoch=e, got=len(negrows), want=nbs)))
                 break
+    if not out:
+        if len(chains) != len(seen):
+            out.append(("batching:not-one-chain-per-batch", dict(chains=len(chains), batches=len(seen))))
+        else:
+            for c_, b_ in zip(chains, seen):
+                neg = b_["batch"][1]
+                if tuple(c_["start"].shape) != tuple(neg.shape) or not torch.equal(c_["start"], neg):
+                    out.append(("batching:chains-not-started-from-the-negative-batch", dict(chain_rows=len(c_["start"]), negative_rows=len(neg))))
+                    break
     if record is not None:
         record.append(dict(perms=dec.perms, ints=dec.ints, batches=len(seen)))
     return out
